@@ -1,6 +1,6 @@
 (* C10 — message-layer reactions follow the RFC 7252 type rules.
    Only statements here; every proof is [exact <lemma of Proofs/C10.v>] (or a vm_compute witness). *)
-From Verif Require Import Lib.Py Lib.Tactics Model.C10 Proofs.C10 Proofs.C10Acks Proofs.C10Live.
+From Verif Require Import Lib.Py Lib.Tactics Model.C10 Proofs.C10 Proofs.C10Acks Proofs.C10Live Proofs.C10Gone.
 Open Scope Z_scope.
 
 (* 1. The reaction table: type x code class x token known x received on multicast, for every state reachable-or-not that satisfies
@@ -34,6 +34,13 @@ Example C10_classify_cells :
   classify 224 = CSignalling /\ classify 255 = CSignalling.
 Proof. vm_compute. repeat split. Qed.
 
+(* every cell of the table without a reply is also silent towards the layers above (no handler started or cancelled, nothing delivered);
+   response codes are excepted because a matched NON/ACK response is delivered to its request *)
+Theorem C10_misfit_no_upward : forall s r m s' o, BInv s -> fresh s r m -> dispatch_message s r m = (s', o) ->
+  table (mtype m) (classify (code m)) (known s r m) (is_multicast_locally r) = NoReply ->
+  classify (code m) <> CResponse -> upward o = [].
+Proof. exact misfit_no_upward. Qed.
+Print Assumptions C10_misfit_no_upward.
 (* messages whose code and type do not fit (NON empty; CON/NON with a reserved or signalling code) change nothing and send nothing *)
 Theorem C10_dont_fit_ignored : forall s r m,
   (mtype m = NON /\ code m = 0) \/
@@ -158,6 +165,41 @@ Example C10_response_timing_nonvacuous :
   Forall (strict r m (next_srv s)) es1 /\ Forall (ev_ok (rpeer r) (mid m)) es1 /\
   now (fst (run (fst (dispatch_message s r m)) es1)) < now s + EMPTY_ACK_DELAY.
 Proof. vm_compute. repeat split; repeat constructor; try (intros [_ H]; discriminate H); try (intros H; discriminate H). Qed.
+(* "... otherwise by an empty ACK followed by a separate response with a fresh message ID and the request's token", over histories
+   (same setting as C10_con_response_timing; comment at con_separate_response in Proofs/C10Gone.v): before handler k0 answers, either
+   nothing was sent under the request's message ID and the clock has not passed d, or the EMPTY ACK is in the trace, the clock is at
+   least d, and the handler's answer is then exactly one CON/NON datagram with the request's token and the next message ID of our own
+   counter (dropped if suppressed by No-Response; a CON may wait in the NSTART backlog; nothing if the handler was cancelled).
+   "Fresh" = taken from our own 16-bit counter, which advances with every message (C10_separate_response: next_mid s' = next_mid s + 1
+   mod 2^16); that no other exchange of ours is alive under that number is C14's business. *)
+Theorem C10_con_separate_response : forall pre m0 t0 s os0 r m s1 o1 es1 s2 os1,
+  run (init m0 t0) pre = (s, os0) ->
+  mtype m = CON -> path m = 0 -> 1 <= code m <= 7 ->
+  aget zz_eqb (recent s) (rpeer r, mid m) = None -> aget pk_eqb (piggy s) (rpeer r, token m) = None ->
+  cnt (rpeer r) (mid m) (piggy s) = 0%nat ->
+  dispatch_message s r m = (s1, o1) -> run s1 es1 = (s2, os1) ->
+  let k0 := next_srv s in let d := now s + EMPTY_ACK_DELAY in
+  Forall (strict r m k0) es1 -> Forall (ev_ok (rpeer r) (mid m)) es1 ->
+  (acks (rpeer r) (mid m) (o1 ++ outputs_of os1) = 0%nat /\ now s2 <= d) \/
+  (In (Send (as_response_address r) (empty_msg ACK (mid m))) (outputs_of os1) /\ d <= now s2 /\
+   forall c rnr pl s3 o3, is_response c = true -> handler_respond s2 k0 c rnr pl = (s3, o3) ->
+     let eff := match rnr with Some v => Some v | None => nr m end in
+     let a := {| a_mtype := None; a_code := c; a_token := token m; a_nr := eff; a_obs := None; a_payload := pl |} in
+     let t := select_mtype None (as_response_address r) (Some (mtype m)) in
+     (find_srv (incoming s2) k0 = None /\ o3 = []) \/
+     (no_response_of a = true /\ o3 = []) \/
+     (no_response_of a = false /\
+      (o3 = [Send (as_response_address r) (mk_wire a t (next_mid s2))] \/ (o3 = [] /\ t = CON /\ amem Z.eqb (backlogs s2) (rpeer r) = true)))).
+Proof. exact con_separate_response. Qed.
+Print Assumptions C10_con_separate_response.
+Example C10_separate_response_nonvacuous :   (* the second alternative is reached: timer fired at 100 000 us, other traffic in between *)
+  let s := init 0 0 in let r := uni 0 in let m := creq CON 7 [1] 0 None in
+  let es1 := [Wait 100000; Fire; Recv (uni 0) (creq NON 8 [2] 1 None); Request 1 None false] in
+  let s2 := fst (run (fst (dispatch_message s r m)) es1) in
+  Forall (strict r m (next_srv s)) es1 /\ Forall (ev_ok (rpeer r) (mid m)) es1 /\ now s + EMPTY_ACK_DELAY <= now s2 /\
+  sends (snd (handler_respond s2 0 69 None [5])) =
+    [(uni 0, {| mtype := CON; code := 69; mid := 2; token := [1]; nr := None; obs := None; path := -1; payload := [5] |})].
+Proof. vm_compute. repeat split; repeat constructor; try (intros [_ H]; discriminate H); try (intros H; discriminate H). Qed.
 (* after the ACK (no opportunity left under the request's (peer, token)): the handler's answer is a separate message with a fresh
    message ID from our own counter and the request's token — CON for a CON request from a unicast peer, NON otherwise; suppressed by
    No-Response it is not sent; a CON may wait in the NSTART backlog (C14) *)
@@ -173,6 +215,30 @@ Theorem C10_respond_after_ack : forall s r m k0 key sv c rnr pl s' o,
    (o = [Send (as_response_address r) (mk_wire a t (next_mid s))] \/ (o = [] /\ t = CON /\ amem Z.eqb (backlogs s) (rpeer r) = true))).
 Proof. exact respond_after_ack. Qed.
 Print Assumptions C10_respond_after_ack.
+(* a NON request is never acknowledged: no ACK-typed message under its (peer, message ID) in the step of its arrival nor in any
+   continuation (same hypotheses on the continuation as above; the NON request records no opportunity) *)
+Theorem C10_non_request_never_acked : forall s r m s1 o1 es s' os,
+  BInv s -> mtype m = NON -> is_request (code m) = true ->
+  aget zz_eqb (recent s) (rpeer r, mid m) = None -> cnt (rpeer r) (mid m) (piggy s) = 0%nat ->
+  dispatch_message s r m = (s1, o1) -> run s1 es = (s', os) -> Forall (ev_ok (rpeer r) (mid m)) es ->
+  acks (rpeer r) (mid m) (o1 ++ outputs_of os) = 0%nat.
+Proof. exact non_request_never_acked. Qed.
+Print Assumptions C10_non_request_never_acked.
+Example C10_non_request_never_acked_nonvacuous :
+  let s := init 0 0 in let r := uni 0 in let m := creq NON 7 [1] 0 None in
+  let es := [Wait 100000; Fire; Respond 0 69 None [5]; Recv (uni 0) (creq CON 8 [1] 1 None)] in
+  BInv s /\ aget zz_eqb (recent s) (rpeer r, mid m) = None /\ cnt (rpeer r) (mid m) (piggy s) = 0%nat /\ Forall (ev_ok 0 7) es /\
+  sends (snd (dispatch_message s r m) ++ outputs_of (snd (run (fst (dispatch_message s r m)) es))) <> [].
+Proof. split; [apply BInv_init|]. vm_compute. repeat split; repeat constructor; try (intros H; discriminate H). Qed.
+(* a CON request answered at once — absent resource (4.04), unknown method (4.05), fast resource, raising resource (5.00) — is
+   acknowledged in the very step of its arrival by exactly one ACK-typed message under its message ID (the piggy-backed answer, or the
+   empty ACK if No-Response suppresses it) and leaves no opportunity behind; with C10_con_request_acked_exactly_once: none later *)
+Theorem C10_immediate_answer_piggybacked : forall s r m s1 o1, mtype m = CON -> is_request (code m) = true ->
+  path m <> 0 \/ ~ (1 <= code m <= 7) -> fresh s r m -> aget pk_eqb (piggy s) (rpeer r, token m) = None ->
+  dispatch_message s r m = (s1, o1) ->
+  acks (rpeer r) (mid m) o1 = 1%nat /\ aget pk_eqb (piggy s1) (rpeer r, token m) = None.
+Proof. exact immediate_answer_piggybacked. Qed.
+Print Assumptions C10_immediate_answer_piggybacked.
 (*    The single-step facts behind these theorems, for every state: *)
 Theorem C10_con_request_step_arms : forall s r m s' o, mtype m = CON -> path m = 0 -> 1 <= code m <= 7 ->
   aget pk_eqb (piggy s) (rpeer r, token m) = None -> _process_request s r m = (s', o) ->
@@ -227,6 +293,19 @@ Theorem C10_as_response_address : forall r,
   rpeer (as_response_address r) = rpeer r.
 Proof. intros r. split; [apply as_response_address_not_multicast_locally|split; [apply as_response_address_idempotent|apply rpeer_ara]]. Qed.
 Print Assumptions C10_as_response_address.
+(* the bit the local / peer kinds abstract, on packed addresses (tied to udp6.py by the `addr` stream): ff00::/8 and the IPv4-mapped
+   form of 224.0.0.0/4 are groups, e.g. ::ffff:224.0.1.187 (All CoAP Nodes over the dual-stack socket); ::ffff:192.0.2.1, the
+   IPv4-compatible ::224.0.1.187 and fe80:: are not *)
+Example C10_packed_is_multicast_cells :
+  packed_is_multicast [255;2;0;0;0;0;0;0;0;0;0;0;0;0;0;253] = true /\
+  packed_is_multicast [0;0;0;0;0;0;0;0;0;0;255;255;224;0;1;187] = true /\
+  packed_is_multicast [0;0;0;0;0;0;0;0;0;0;255;255;239;255;255;250] = true /\
+  packed_is_multicast [0;0;0;0;0;0;0;0;0;0;255;255;240;0;0;1] = false /\
+  packed_is_multicast [0;0;0;0;0;0;0;0;0;0;255;255;223;255;255;255] = false /\
+  packed_is_multicast [0;0;0;0;0;0;0;0;0;0;255;255;192;0;2;1] = false /\
+  packed_is_multicast [0;0;0;0;0;0;0;0;0;0;0;0;224;0;1;187] = false /\
+  packed_is_multicast [254;128;0;0;0;0;0;0;0;0;0;0;0;0;0;1] = false.
+Proof. vm_compute. repeat split. Qed.
 (* responses built from exceptions (4.04, 4.05, 5.00) are subject to the request's No-Response option like any other *)
 Theorem C10_error_response_inherits_no_response : forall s r req c pl,
   send_response s r req c None pl =
